@@ -1296,3 +1296,8 @@ def r1_11(ctx, rep):
         rep.check(ok, "R1.11", cls.where, cls.qual, f"node class {cname}: accept -> {target}, defined by Resolver"
                   + ("" if need else " (Assign is only legal inside calls)"), "",
                   f"{cname}.accept dispatches to {target}, which Resolver does not define")
+
+
+from ..core import guard_rules  # noqa: E402
+
+guard_rules(globals())
